@@ -545,3 +545,26 @@ func fmtSignals(s []feedstypes.Signal) string {
 	}
 	return o
 }
+
+// RestakeParamChurn lets governance change the list of restakable denoms mid-run: coins staked in a denom that is later removed
+// stay recorded but stop counting as power (and count again if the denom returns).
+type RestakeParamChurn struct {
+	Rate int
+}
+
+func (p *RestakeParamChurn) OnBlock(e *Env, blk *world.BlockRecord) {}
+func (p *RestakeParamChurn) Act(e *Env) {
+	if e.Draining || e.Step < 6 || !e.Ch.Bool("restake.churn", p.Rate) {
+		return
+	}
+	gov := getGov(e)
+	if gov == nil {
+		return
+	}
+	sets := [][]string{{"uusd"}, {"uusd", "uatom"}, {}, {"uatom"}}
+	np := restaketypes.Params{AllowedDenoms: sets[e.Ch.Intn("restake.churn.set", len(sets))]}
+	if np.Validate() == nil {
+		gov.Propose(e, "params_restake", nil, &restaketypes.MsgUpdateParams{Authority: govAuthority, Params: np})
+		e.St.Fault("restake_allowed_denoms_changed_by_governance")
+	}
+}
